@@ -1,4 +1,5 @@
 import PPProofs.Lemmas.ParseNoIdx
+import PPProofs.Lemmas.ParseAdv
 import PPProofs.Props.C14
 /-!
 # C06 — parsing is total: only ParseBaseException escapes, with sane diagnostics
@@ -26,6 +27,12 @@ namespace PP.Parse
 theorem no_indexerror_escapes (g : Grammar) (s : List Char) (hw : WFIdx g) (f id loc : Nat) (a c : Bool) :
     parse g s f id loc a c ≠ .idx :=
   parse_noIdx g s hw f id loc a c
+
+/-- a successful `_parse` of any element never ends before the location it was called at (so a reported match
+    `[start, end)` is a well-formed span), for every grammar, input, fuel and call -/
+theorem parse_match_forward (g : Grammar) (s : List Char) (f id loc : Nat) (a c : Bool) (e : Nat) (ts : List Tok)
+    (h : parse g s f id loc a c = .ok e ts) : loc ≤ e :=
+  parse_adv g s f id loc a c e ts h
 
 theorem leaf_indexerror_only_at_end {p : P} (hp : NoIdx p) (g : Grammar) (nd : Node) (s : List Char) (loc : Nat)
     (acts : Bool) (h : parseImpl g p nd s loc acts = .idx) (hne : nd.kind ≠ .and []) : loc ≥ s.length := by
